@@ -116,6 +116,49 @@ func (b *c18B) tree(depth, width int) {
 	}
 }
 
+// the names a decoder is supposed to refuse
+var c18Degenerate = []string{"", ".", "..", "a/..", "./", "x/.", "d/../", "../d", "/", "s/x", "nul\x00"}
+
+// c18Histories: the degenerate name re-entered with changing kinds -- a file (CreateFile clears the
+// way with RemoveAll, whatever the name resolves to), then a link to the outside (which as a
+// first step would fail on a directory), then ordinary entries that would be written through
+// it -- at the root and inside a sub-directory, with the destination existing and absent.
+func c18Histories(name, shape string) []*c18Case {
+	var out []*c18Case
+	for _, depth := range []int{0, 1, 2} {
+		for _, dest := range []string{"", "absent"} {
+			for variant := 0; variant < 3; variant++ {
+				b := &c18B{}
+				b.dir(c18None)
+				for i := 0; i < depth; i++ {
+					b.dir([]string{"d", "e"}[i])
+				}
+				switch variant {
+				case 0: // file, link, entries
+					b.file(name, "step1")
+					b.link(name, "@SB@/outside")
+				case 1: // device, file, link, entries
+					b.dev(name, sIFCHR|0600)
+					b.file(name, "step1")
+					b.link(name, "@SB@/outside")
+				case 2: // link at once
+					b.link(name, "@SB@/outside")
+				}
+				b.file("x", "PWNED")
+				b.dir("sub")
+				b.file("y", "PWNED")
+				b.bye()
+				b.link("sentinel", "gone")
+				for i := 0; i <= depth; i++ {
+					b.bye()
+				}
+				out = append(out, &c18Case{Shape: shape, Elems: b.els, Via: []string{"untar", "index"}[(depth+variant)%2], Dest: dest})
+			}
+		}
+	}
+	return out
+}
+
 func c18Corpus() []*c18Case {
 	var out []*c18Case
 	add := func(shape string, f func(b *c18B)) {
@@ -187,6 +230,10 @@ func c18Corpus() []*c18Case {
 		b.els = append(b.els, c18El{K: "F", S: hx("a")}, c18El{K: "E", Mode: sIFLNK | 0777, UID: 1000, GID: 1000, MTime: 1300000001}, c18El{K: "S", S: hx("../outside")})
 		b.bye()
 	})
+	// degenerate names as steps of a history
+	for _, n := range []string{"", ".", "a/..", ".."} {
+		out = append(out, c18Histories(n, "corpus-degenerate-history")...)
+	}
 	// link then the same name
 	for k := 0; k < 5; k++ {
 		k := k
@@ -239,7 +286,21 @@ func c18Gen(rng *vh.Rand) *c18Case {
 			b.bye()
 		}
 	}
-	switch rng.Intn(15) {
+	switch rng.Intn(16) {
+	case 15: // a name the decoder has to refuse, re-entered as file, link, ...; ordinary entries after it
+		c.Shape = "degenerate-history"
+		root()
+		d := descend()
+		n := b.pick(c18Degenerate)
+		for i := 1 + rng.Intn(3); i > 0; i-- {
+			b.any(n, 1+rng.Intn(4), b.pick(c18Targets))
+		}
+		b.link(n, b.pick([]string{"@SB@/outside", "../outside", "../../outside", ".."}))
+		b.file("x", "PWNED")
+		b.dir("sub")
+		b.file("y", "PWNED")
+		b.bye()
+		close(d)
 	case 14: // one name, several entries of changing kinds
 		c.Shape = "name-history"
 		root()
